@@ -17,6 +17,7 @@ from vlib import strats as S
 from vlib import runs as R
 from vlib import fixtures as F
 
+from pySDC.core.errors import ProblemError
 from pySDC.implementations.sweeper_classes.generic_implicit import generic_implicit
 from pySDC.implementations.sweeper_classes.imex_1st_order import imex_1st_order
 from pySDC.implementations.problem_classes.HeatEquation_ND_FD import heatNd_unforced
@@ -171,6 +172,14 @@ def labels(case, r):
 
 # ----------------------------------------------------------------------------------------- (2) defect identity
 def prop_defect(case, r):
+    try:
+        return _prop_defect(case, r)
+    except ProblemError as e:
+        # the nonlinear solver of the problem class left its basin for the generated state (e.g. Allen-Cahn Newton: nan): not a statement about FAS
+        r.discard(f'problem solver failed: {str(e)[:60]}')
+
+
+def _prop_defect(case, r):
     labels(case, r)
     ctrl, S = start_step(case)
     L0 = S.levels[0]
@@ -218,6 +227,14 @@ def _as(L, arr):
 
 # ----------------------------------------------------------------------------------------- (1) fixed point
 def prop_fixed_point(case, r):
+    try:
+        return _prop_fixed_point(case, r)
+    except ProblemError as e:
+        # the nonlinear solver of the problem class left its basin for the generated state (e.g. Allen-Cahn Newton: nan): not a statement about FAS
+        r.discard(f'problem solver failed: {str(e)[:60]}')
+
+
+def _prop_fixed_point(case, r):
     labels(case, r)
     ctrl, S = start_step(case)
     L0 = S.levels[0]
